@@ -367,9 +367,9 @@ impl Write for OneByteWriter {
 // ---------------------------------------------------------------------------
 // Families
 
-pub const FAMILIES: [&str; 18] = [
+pub const FAMILIES: [&str; 19] = [
     "truncation", "byte-substitution", "u32-field", "chunk-ops", "xml-mutation", "read-script-1", "read-script-2", "write-fault",
-    "attr-all-bytes", "xml-all-strings", "header-variants", "deep-xml", "chunk-splice", "one-byte-io", "chunk-payload-cut", "chunk-payload-delete-byte", "decode-after-failure", "xml-long-text",
+    "attr-all-bytes", "xml-all-strings", "header-variants", "deep-xml", "chunk-splice", "one-byte-io", "chunk-payload-cut", "chunk-payload-delete-byte", "decode-after-failure", "xml-long-text", "bin-long-names",
 ];
 
 const SUBST: [u8; 5] = [0x00, 0x01, 0x7f, 0x80, 0xff];
@@ -523,6 +523,56 @@ fn xml_long_variant(text: &[u8], tag: (usize, usize), place: usize, size: usize,
     }
 }
 
+/// A one-instance binary file, assembled by hand from docs/binary.md, whose class name, property
+/// name and string value are long runs of one- to four-byte characters (optionally cut at exactly
+/// `size` bytes, which may split a character). `variant`: 0 a String property, 1 a property of
+/// an unknown type id, 2 a Bool property whose payload is missing, 3 a String property on a
+/// database class (Part) with an ordinary class name.
+fn bin_long_names(variant: usize, cut: bool, size: usize, fill: &str) -> Vec<u8> {
+    use crate::specbin::enc::{frame_chunk, put_referents, Comp};
+    let mut t = long_text(size, fill).into_bytes();
+    if cut {
+        t.truncate(size);
+    }
+    let put_str = |o: &mut Vec<u8>, b: &[u8]| {
+        o.extend_from_slice(&(b.len() as u32).to_le_bytes());
+        o.extend_from_slice(b);
+    };
+    let class: &[u8] = if variant == 3 { b"Part" } else { &t };
+    let mut f = b"<roblox!\x89\xff\x0d\x0a\x1a\x0a".to_vec();
+    f.extend_from_slice(&0u16.to_le_bytes());
+    f.extend_from_slice(&1u32.to_le_bytes());
+    f.extend_from_slice(&1u32.to_le_bytes());
+    f.extend_from_slice(&[0u8; 8]);
+    let mut inst = 0u32.to_le_bytes().to_vec();
+    put_str(&mut inst, class);
+    inst.push(0);
+    inst.extend_from_slice(&1u32.to_le_bytes());
+    put_referents(&mut inst, &[0]);
+    f.extend(frame_chunk(b"INST", &inst, Comp::None));
+    let mut prop = 0u32.to_le_bytes().to_vec();
+    put_str(&mut prop, &t);
+    match variant {
+        0 | 3 => {
+            prop.push(0x01);
+            put_str(&mut prop, &t);
+        }
+        1 => {
+            prop.push(0x7f);
+            prop.extend_from_slice(&[1, 2, 3, 4]);
+        }
+        _ => prop.push(0x02),
+    }
+    f.extend(frame_chunk(b"PROP", &prop, Comp::None));
+    let mut prnt = vec![0u8];
+    prnt.extend_from_slice(&1u32.to_le_bytes());
+    put_referents(&mut prnt, &[0]);
+    put_referents(&mut prnt, &[-1]);
+    f.extend(frame_chunk(b"PRNT", &prnt, Comp::None));
+    f.extend(frame_chunk(b"END\0", b"</roblox>", Comp::None));
+    f
+}
+
 fn xml_len(tier: Tier) -> u32 {
     if tier == Tier::Quick {
         5
@@ -658,6 +708,7 @@ impl Engine {
             14 | 15 => self.payload_pos.len() as u64 * 3,
             16 => self.corpus.files.len() as u64 * 32,
             17 => (self.xml_tag_pos.len() * LONG_PLACES * LONG_SIZES.len() * LONG_FILLS.len()) as u64,
+            18 => (4 * 2 * LONG_SIZES.len() * LONG_FILLS.len()) as u64,
             _ => 0,
         }
     }
@@ -932,6 +983,25 @@ impl Engine {
                 b.extend_from_slice(&fb.bytes[tb[j].1..]);
                 judge_decode(Kind::Bin, &b, fam, false, out, &replay);
             }
+            18 => {
+                let nv = (LONG_SIZES.len() * LONG_FILLS.len()) as u64;
+                let (var, rest) = ((index % nv) as usize, index / nv);
+                let (cut, variant) = (rest % 2 == 1, (rest / 2) as usize);
+                let size = LONG_SIZES[var % LONG_SIZES.len()];
+                let fill = LONG_FILLS[var / LONG_SIZES.len()];
+                let b = bin_long_names(variant, cut, size, fill);
+                let o = judge_decode(Kind::Bin, &b, fam, false, out, &replay);
+                // the well-formed variants are legal files (names are byte strings with a length)
+                if (variant == 0 || variant == 3) && !cut {
+                    if let Out::Err = &o {
+                        out.violation(
+                            format!("c13|{}|{}|rejected", kind_name(Kind::Bin), fam),
+                            format!("a well-formed file with {}-byte names ({:?} repeated) is rejected", size, fill),
+                            &replay,
+                        );
+                    }
+                }
+            }
             17 => {
                 let nv = (LONG_SIZES.len() * LONG_FILLS.len()) as u64;
                 let (var, rest) = (index % nv, index / nv);
@@ -1143,7 +1213,7 @@ pub fn check(run: &Run) -> Value {
             {"family": "xml-all-strings", "case": "<a/>"},
         ],
         "exhaustive": res.abandoned.is_empty(),
-        "rule": "fault enumeration around the real decoders/encoders: every strict prefix of every corpus file; every single-byte substitution from a 5-value set and every single-bit flip at every offset; every chunk payload cut at every length and with every single byte deleted, re-framed consistently (uncompressed / LZ4 literals / raw zstd); every u32 window of every binary file set to 7 boundary values; every chunk deleted / duplicated / swapped / spliced from another file; every tag / attribute / text-node mutation of every XML file; every read() script with <=1 (thorough: <=2) deviations {Short(1), Short(half), Interrupted} and the one-byte reader; a failing sink at every output offset (Err and Ok(0)) and a one-byte sink; all byte strings of length <=3 into Attributes::from_reader; all strings of length <=5 (thorough 6) over a 14-symbol XML alphabet into rbx_xml::from_str; all binary headers differing from a valid one in <=2 bytes over a 5-value alphabet; legal XML nested 1000..100000 deep; runs of 1..65537 bytes of one- to four-byte characters as stray text, CDATA, tag name and attribute value at every tag of every XML file. A case is one (family, index) pair.",
+        "rule": "fault enumeration around the real decoders/encoders: every strict prefix of every corpus file; every single-byte substitution from a 5-value set and every single-bit flip at every offset; every chunk payload cut at every length and with every single byte deleted, re-framed consistently (uncompressed / LZ4 literals / raw zstd); every u32 window of every binary file set to 7 boundary values; every chunk deleted / duplicated / swapped / spliced from another file; every tag / attribute / text-node mutation of every XML file; every read() script with <=1 (thorough: <=2) deviations {Short(1), Short(half), Interrupted} and the one-byte reader; a failing sink at every output offset (Err and Ok(0)) and a one-byte sink; all byte strings of length <=3 into Attributes::from_reader; all strings of length <=5 (thorough 6) over a 14-symbol XML alphabet into rbx_xml::from_str; all binary headers differing from a valid one in <=2 bytes over a 5-value alphabet; legal XML nested 1000..100000 deep; runs of 1..65537 bytes of one- to four-byte characters as stray text, CDATA, tag name and attribute value at every tag of every XML file, and as class name / property name / string value of hand-assembled binary files (well-formed, unknown type id, missing payload). A case is one (family, index) pair.",
     })
 }
 
